@@ -54,6 +54,7 @@ var c04Queries = []string{
 	`{ deep { lOfNN { lOfNN { vNN } } lNN { lNN { v } } } }`,
 	`{ deep { ll { ll { vNN } } } leafy { liNN } }`,
 	`{ a { items(n:2) { owner(as:"C") { ... on C { cOnly deep { vNN } } } n } } }`,
+	`{ solo { ... on B { bOnly } } node(as:"A") { ... on A { solo { ... on B { id nn { sNN } } } } } c { solo { ... on B { bOnly } } } }`,
 	`mutation { m1(v:1) { id nn { sNN } } s1(v:2) m2(v:3) { nodes(n:2) { id } } }`,
 	`mutation { deep { dNN { vNN } v } node(as:"B") { id ... on B { nn { s } } } s2(v:1) }`,
 }
@@ -76,7 +77,7 @@ func (c04) ID() string { return "C04" }
 // fault kinds applicable per position class
 var (
 	c04Any      = []string{FErr, FValErr, FPanicErr, FPanicStr, FPanicInt, FNil, FTypedNil, FThunk, FThunkErr, FThunkPanic, FThunkNil, FThunkBad}
-	c04Leaf     = []string{FWrongKind, FNaN, FBigInt, FBadEnum}
+	c04Leaf     = []string{FWrongKind, FNaN, FBigInt, FBigIntStr, FBadEnum}
 	c04List     = []string{FWrongKind, FNotIter, FElemThunk}
 	c04LeafList = []string{FElemPanic}
 	c04Abs      = []string{FRTNil, FRTWrong, FRTPanic, FWrongKind}
@@ -116,7 +117,7 @@ func elemType(t string) string {
 func isListType(t string) bool { return strings.HasPrefix(strings.TrimSuffix(t, "!"), "[") }
 
 var c04LeafNames = map[string]bool{"String": true, "Int": true, "Float": true, "Boolean": true, "ID": true, "Kind": true, "Stamp": true}
-var c04AbsNames = map[string]bool{"Node": true, "U": true}
+var c04AbsNames = map[string]bool{"Node": true, "U": true, "Solo": true}
 var c04IsTypeNames = map[string]bool{"A": true, "B": true, "C": true}
 
 func c04Analyse(q string) *c04Info {
@@ -617,7 +618,7 @@ func (c04) Run(t TestingT, scn json.RawMessage, tape *Tape) *Outcome {
 			if _, _, ok := getAt(ci.Baseline, pathToJSON(path)); ok {
 				hard = true
 			}
-		case FNaN, FBigInt, FBadEnum:
+		case FNaN, FBigInt, FBigIntStr, FBadEnum:
 			if c04LeafNames[named] && !isListType(typ) {
 				want, _ = setAt(want, path, c04Wild+named)
 				nonTrivial = true
@@ -702,6 +703,18 @@ func (c04) Run(t TestingT, scn json.RawMessage, tape *Tape) *Outcome {
 		}
 		return o
 	}
+	// data contains only (and all of) the selected response keys
+	if doc, err := parseDoc(sc.Query); err == nil {
+		rc.mu.Lock()
+		typeAt := map[string]string{}
+		for k, v := range rc.TypeAt {
+			typeAt[k] = v
+		}
+		rc.mu.Unlock()
+		if msg := CheckSelectedKeys(doc, "", nil, ci.Root, dec.Data, typeAt, w.Possible); msg != "" {
+			o.Violate("C04/unselected-or-missing-key", "%s\n response: %s", msg, raw)
+		}
+	}
 	// every hard failure has an error addressing the failed field, unless the
 	// field lies inside a subtree nulled by another failure
 	// When a failure unwinds through a deferred position to the root (the
@@ -732,12 +745,15 @@ func (c04) Run(t TestingT, scn json.RawMessage, tape *Tape) *Outcome {
 		if forcingAborted && (f.deferred || c04UnderDeferred(f.path, firedAt)) {
 			continue
 		}
+		// the error may be missing only if the field lies inside a subtree that an
+		// EARLIER failure had already nulled (errors recorded before a later
+		// failure nulls the subtree are kept)
 		shadowed := false
 		for j, g := range fails {
-			if i != j && g.target != g.path && isUnder(f.path, g.target) && !(g.path == f.path) {
-				shadowed = true
-			}
-			if i != j && isUnder(f.path, g.target) && g.target != f.target {
+			// a deferred value fails when it is forced, i.e. after every
+			// failure that happened while the tree was being built
+			earlier := (!g.deferred && f.deferred) || (g.deferred == f.deferred && j < i)
+			if earlier && g.path != f.path && isUnder(f.path, g.target) {
 				shadowed = true
 			}
 		}
